@@ -43,7 +43,7 @@ CLAIMS = {
             "Props/C11.lean"),
 }
 
-READY = ["C01", "C02", "C03", "C13", "C14", "C15", "C20"]   # properties whose Props file holds real theorems
+READY = ["C01", "C02", "C03", "C06", "C07", "C13", "C14", "C15", "C19", "C20"]   # properties whose Props file holds real theorems
 CLAIMS.update({
     "C13": ("Lean theorems over exact rationals: the delivery tick ceil(a*tps) is never before the arrival and is the first such tick; it is monotone in the arrival; "
             "with rows in arrival order each tick returns exactly the pipelines whose delivery tick it is, in file order, exactly once, none after the end; the gentrace "
@@ -62,6 +62,21 @@ CLAIMS.update({
     "C20": ("Lean theorems over exact rationals: snap never moves up, by less than a tick, fixes the grid, is idempotent; jitter's output is a sorted permutation with each arrival moved "
             "by its draw in [0, delta]; sample seeds start+i are distinct. Tie: files through `eudoxia tools snap|jitter` (CLI) compared in exact decimal arithmetic; seed wiring of "
             "sensitivity-sample captured with a stub generator.", "Props/C20.lean; where 1/tps has no finite decimal expansion the written value is compared as the correctly rounded float"),
+})
+CLAIMS.update({
+    "C06": ("Lean theorems: the counters the main loop accumulates tick by tick equal an independent recount of the run's history (induction over ticks); arrivals and completions "
+            "per priority partition the totals; mean and p99 (numpy's linear rule, exact rationals) are over exactly the completed latencies; empty classes / empty runs give "
+            "count 0 and undefined latency. Tie: run_simulator with recording workload, scheduler and executor wrappers; the history recounted by the Lean model is compared "
+            "with the returned SimulatorStats and with every pipeline's recorded finish tick (= tick of its last operator's completion); uncontended pipelines finish in exactly "
+            "the ticks their operators need.", "Props/C06.lean; the 'completed exactly once at its last operator' clause is checked on the implementation (per-pipeline finish ticks), the closed-loop theorem for it is not proved"),
+    "C07": ("PARTIAL. Lean theorems are thin and by construction (the model is a function of its inputs, the generator's parameters contain no policy setting, the model has no identifier "
+            "values). The decisive part is the tie: each configuration is executed in a fresh interpreter, under another PYTHONHASHSEED, after other simulations, and in the long-lived "
+            "harness process; canonicalised event logs and statistics must be identical; workload independence of policy and seed sensitivity compared on arrival logs.",
+            "Props/C07.lean; cross-process determinism is CPython runtime behaviour the model cannot exhibit"),
+    "C19": ("PARTIAL. Lean theorems on the bridge's bookkeeping: a call is made iff something arrived or finished or the poll interval passed; new and known pipelines are disjoint; "
+            "a pipeline reported complete is dropped and never reported again; reply decoding is the identity on registered operators. Tie: loop-back HTTP server recording every "
+            "request body, compared with the executor's real state and with the Lean bookkeeping model; the peer's decisions replayed in-process give identical statistics.",
+            "Props/C19.lean; sockets/JSON/requests exercised not modelled; the Go reference cannot be built here"),
 })
 CLAIMS = {k: v for k, v in CLAIMS.items() if k in READY}
 
